@@ -110,6 +110,10 @@ fn spec_strategy(slow: u32) -> BoxedStrategy<ConnSpec> {
     ];
     let mut weighted: Vec<(u32, u8)> = vec![(10, 0), (6, 1), (4, 2), (1, 3), (4, 4), (1, 5), (1, 6), (2, 10)];
     if slow > 0 {
+        // the other behaviours weigh four times more where the slow ones are generated
+        for w in weighted.iter_mut() {
+            w.0 *= 4;
+        }
         // behaviours that make S wait for its 10 s handshake timeout
         weighted.push((slow, 7));
         weighted.push((slow, 8));
